@@ -250,6 +250,11 @@ def _run(ctx):
     for i in range(8 if ctx.quick() else 80):
         lines, ids = pdbgen.multichain(rnd, nchains=rnd.randint(1, 3), separation=rnd.choice([12.0, 25.0, 60.0]), chains="ABCDEFG")
         inputs.append(("gen%d" % i, pdbgen.text(lines)))
+    # the symmetric disulfide of a homodimer: two cysteines with the same residue name and number, in different chains
+    hd = pdbgen.homodimer_ss(rnd)
+    if hd is not None:
+        inputs.append(("homodimer-ss", pdbgen.text(hd)))
+        ctx.count("homodimers with a symmetric inter-chain disulfide")
     rel_bad, twin_bad, copy_bad = [], [], []
     loops = []
     for name, text in inputs:
